@@ -670,8 +670,10 @@ pub fn gen_case(rng: &mut Rng, tier: &str, profile: &str, stats: &mut Stats) -> 
     let directed_c07 = c07_variant < 2;
     let directed_c07b = c07_variant == 2 || c07_variant == 3; // incoming limit vs. promotion
     let directed_c07c = c07_variant == 4; // the only disconnected node disappears while a candidate waits
-    let directed_c16b = profile == "C16" && rng.chance(1, 5);
-    let regime = if directed_c07 || directed_c07b || directed_c07c || directed_c16b { 0 } else if tier == "thorough" { rng.below(12) } else { rng.below(40) };
+    let c16_variant = if profile == "C16" { rng.below(10) } else { 99 };
+    let directed_c16b = c16_variant < 2;
+    let directed_c16c = c16_variant == 2; // the candidate no longer passes the bucket filter when its timeout elapses
+    let regime = if directed_c07 || directed_c07b || directed_c07c || directed_c16b || directed_c16c { 0 } else if tier == "thorough" { rng.below(12) } else { rng.below(40) };
     let (pending_ms, sleeps) = match regime {
         0 => (200u64, true),
         r if r % 2 == 1 => (0, false),
@@ -743,7 +745,8 @@ pub fn gen_case(rng: &mut Rng, tier: &str, profile: &str, stats: &mut Stats) -> 
         stats.bump("gen.case.directed-pending-status-change");
         let hb = hot[0];
         let mut fresh = 2_000_000u64;
-        let ndis = rng.range(2, 5);
+        // (sometimes every node of the bucket is disconnected)
+        let ndis = if rng.chance(1, 4) { 16 } else { rng.range(2, 5) };
         for j in 0..16 {
             let k = key_at(&local, hb, rng);
             ops.push(format!("kins {} v{}:- {} o", hx(&k), fresh, if j < ndis { "d" } else { "c" }));
@@ -824,7 +827,8 @@ pub fn gen_case(rng: &mut Rng, tier: &str, profile: &str, stats: &mut Stats) -> 
         }
         let pk = key_at(&local, hb, rng);
         ops.push(format!("kins {} v{}:1 c o", hx(&pk), fresh));
-        fresh += 8;
+        // (another record of the same node)
+        fresh += 1;
         ops.push(format!("krm {}", hx(&members[rng.range(4, 8) as usize])));
         if rng.chance(1, 2) {
             ops.push(format!("kins {} v{}:0 c o", hx(&pk), fresh));
@@ -835,7 +839,31 @@ pub fn gen_case(rng: &mut Rng, tier: &str, profile: &str, stats: &mut Stats) -> 
         }
         ops.push("kdump".into());
     }
-    if ip && !directed_c16b && rng.chance(1, 3) {
+    if directed_c16c {
+        // directed prefix: a candidate of some /24 is queued while the bucket holds one record of
+        // that /24; a member's record then moves into the /24; when the candidate's timeout elapses
+        // the bucket already holds two of them
+        stats.bump("gen.case.directed-pending-fails-filter-at-promotion");
+        let hb = hot[0];
+        let base = 6_000_000u64;
+        let mut members: Vec<[u8; 32]> = Vec::new();
+        for j in 0..16u64 {
+            let k = key_at(&local, hb, rng);
+            members.push(k);
+            let sub = if j == 3 { "0" } else { "-" };
+            ops.push(format!("kins {} v{}:{} {} o", hx(&k), base + 8 * j, sub, if j == 0 { "d" } else { "c" }));
+        }
+        let pk = key_at(&local, hb, rng);
+        ops.push(format!("kins {} v{}:0 c o", hx(&pk), base + 8 * 16));
+        let mover = rng.range(5, 12);
+        ops.push(format!("kupd {} v{}:0 -", hx(&members[mover as usize]), base + 8 * mover + 1));
+        ops.push("kdump".into());
+        ops.push("ksleep 450".into());
+        ops.push(format!("kentry {}", hx(&pk)));
+        ops.push("kdump".into());
+        ops.push("ktake".into());
+    }
+    if ip && !directed_c16b && !directed_c16c && rng.chance(1, 3) {
         // directed prefix: a full bucket of records without IPv4 whose first node is disconnected,
         // one /24 driven close to the table limit in other buckets, then a pending candidate of
         // that /24, more inserts of that /24 elsewhere, and finally an access that promotes it.
